@@ -587,11 +587,40 @@ def mutate(case, rng):
     return out
 
 
+# ---- string operator selection ----
+SOP_ALPHA = ["a", "b", "*", "?", "\\", " "]
+def gen_strop(tier, rng):
+    ss = ["".join(t) for k in range(0, 5 if tier == "quick" else 6) for t in itertools.product(SOP_ALPHA, repeat=k)]
+    if tier == "quick":
+        ss = [s for s in ss if len(s) <= 3] + rng.sample([s for s in ss if len(s) > 3], 500)
+    out = []
+    for s in ss:
+        for _ in range(2 if tier == "quick" else 4):
+            k = gen_config(rng)
+            out.append({"k": k, "s": s})
+    return out
+
+def strop_to_coq(c, r):
+    k = c["k"]
+    K = ("{| has_sw := %s; has_ew := %s; has_ct := %s; has_wm := %s; sw_special := %s; ew_special := %s; ct_special := %s |}"
+         % tuple(cbool(x) for x in (k["startswith"], k["endswith"], k["contains"], k["wildmatch"], k["allow_special"], k["allow_special"], k["allow_special"])))
+    dec = None
+    if "exc" not in r:
+        m = re.fullmatch(r"«f( startswith | endswith | contains | match |=)(\".*\")»", r["text"], flags=re.S)
+        if m:
+            p = dec_str(m.group(2))
+            if p is not None:
+                op = {" startswith ": "OpStartswith", " endswith ": "OpEndswith", " contains ": "OpContains", " match ": "OpWildMatch", "=": "OpEq"}[m.group(1)]
+                items = clist(("Multi" if x == ("M",) else "Single" if x == ("S",) else "(Lit %d)" % ord(x[1])) for x in p)
+                dec = f"({op}, {items})"
+    return f"({K}, {cstr(c['s'])}, {copt(dec)})"
+
 REQ = ["Base.Chars", "Model.Backend", "Spec.Target", "Run.C01run"]
 PROPERTY = Property(
     pid="C01", props_file="Props/C01.v",
     suites=[Suite("struct", gen_struct, "run_struct", REQ, "judge_struct", struct_to_coq, known=known_struct,
-                  mutate=mutate, py_oracle=py_oracle, stratum=stratum, shard=120)],
+                  mutate=mutate, py_oracle=py_oracle, stratum=stratum, shard=120),
+            Suite("strop", gen_strop, "run_strop", REQ + ["Model.StrOp", "Spec.Items"], "judge_strop", strop_to_coq)],
     rule="random rules (1-4 detections: maps, lists of maps, keyword lists; strings with wildcards/escapes, numbers, bools, null; "
          "modifiers contains/startswith/endswith/all/cased/re/cidr/exists/windash/base64offset/gt/lte/fieldref/neq/minute; conditions "
          "of depth <= 3 with and/or/not/selectors; 1-2 conditions) x random backend configurations (6 precedence orders, parenthesize, "
